@@ -93,14 +93,14 @@ Definition trig_put (s : store) : store * list tok :=
               else (s, [])
   end.
 
-(* _trigger_reserve_get / _do_reserve_get: head of the queue only.  The filter store scans
+(* _do_reserve_get on the head of the queue.  The filter store scans
    the unreserved items (those behind the reserved prefix) for the first one satisfying the
    request's filter and moves it to the end of the reserved prefix; the other two stores
    grant without a filter (modelled as the always-true filter, which picks the head). *)
 Definition eff_flt (s : store) (r : req) : flt :=
   match s_kind s with KFilter => r_flt r | _ => FMod 1 0 end.
 
-Definition trig_get (s : store) : store * list tok :=
+Definition trig_get1 (s : store) : store * list tok :=
   match getq s with
   | [] => (s, [])
   | r :: q =>
@@ -113,6 +113,27 @@ Definition trig_get (s : store) : store * list tok :=
         | None => (s, [])
         end
       else (s, [])
+  end.
+
+(* The loop of _trigger_reserve_get goes on while _do_reserve_get returns a true value.  In the
+   filter store it returns True after a grant, so heads are served until one cannot be; in the
+   other two stores it returns None, so exactly one head is tried.  Fuel: one unit per waiting
+   request (every grant removes one). *)
+Fixpoint trig_get_n (n : nat) (s : store) : store * list tok :=
+  match n with
+  | 0 => (s, [])
+  | S n' =>
+      let '(s1, ts) := trig_get1 s in
+      match ts with
+      | [] => (s1, [])
+      | _ => let '(s2, ts2) := trig_get_n n' s1 in (s2, ts ++ ts2)
+      end
+  end.
+
+Definition trig_get (s : store) : store * list tok :=
+  match s_kind s with
+  | KFilter => trig_get_n (length (getq s)) s
+  | _ => trig_get1 s
   end.
 
 Definition tokb (t : tok) (r : req) : bool := Nat.eqb (r_tok r) t.
